@@ -17,7 +17,7 @@ RULE = ("1-4 languages (BCP-47-shaped codes), 1-5 sorted non-overlapping cues pe
         "divs with/without xml:lang, tt with/without xml:lang, read in-process and in pristine "
         "zygote children under several PYTHONHASHSEED values and under "
         "PYCAPTION_DEFAULT_LANG=zz; (sami-read) classes mapped by the stylesheet or a lang "
-        "attribute, reads repeated under several hash seeds; (write; also with one empty language, a style named like a language, force= in other case / prefix) sets -> DFXP (force), "
+        "attribute, reads repeated under several hash seeds; (write; also with one empty language, a style named like a language, force= in other case / prefix, languages attached with set_captions after construction; SAMI reads with prefix-related language classes) sets -> DFXP (force), "
         "legacy/single DFXP, SAMI, WebVTT(lang) parsed independently; (lang-opt) lang= on the "
         "SRT / WebVTT / MicroDVD / SCC readers. Non-trivial: >= 2 languages with at least one "
         "pair of cues whose time order across languages differs from language order. "
@@ -273,6 +273,7 @@ def write_strategy(tier):
                                              [c.upper() for c in codes] + [c.split("-")[0] for c in codes])),
                 "prev": prev,
                 # names live in separate name spaces: a style may be called like a language
+                "via_set_captions": draw(st.sampled_from([0, 0, 0, 1, 2, 3])),
                 "style_named": draw(st.sampled_from([None, None, None] + codes + [c.lower() for c in codes]))}
     return build()
 
@@ -294,6 +295,14 @@ def check_write(case, rec):
         styles = {case["style_named"]: {"color": "red"}}
         rec.label("style-named-like-a-language")
     cs = model.to_pycaption(_to_set(langs, styles))
+    if case.get("via_set_captions") and len(langs) >= 2:
+        # the same set, built the other documented way: languages attached after construction
+        k = case["via_set_captions"] % len(langs) or 1
+        full = cs
+        cs = model.to_pycaption(_to_set(langs[:k], styles))
+        for l in langs[k:]:
+            cs.set_captions(l["code"], full.get_captions(l["code"]))
+        rec.label("languages-attached-with-set_captions")
     by = {l["code"]: l for l in langs}
     wcls = {"dfxp": DFXPWriter, "dfxp-legacy": LegacyDFXPWriter, "dfxp-single": SinglePositioningDFXPWriter,
             "sami": SAMIWriter, "webvtt": WebVTTWriter}[w]
